@@ -254,6 +254,18 @@ impl Report {
     pub fn set(&mut self, key: &str, v: impl Into<Value>) {
         self.coverage.insert(key.to_string(), v.into());
     }
+    /// Merge `map` into the object stored under `key` (creating it if needed).
+    pub fn merge_map(&mut self, key: &str, map: serde_json::Map<String, Value>) {
+        let mut cur = match self.coverage.remove(key) {
+            Some(Value::Object(o)) => o,
+            _ => serde_json::Map::new(),
+        };
+        for (k, v) in map {
+            cur.insert(k, v);
+        }
+        self.coverage.insert(key.to_string(), Value::Object(cur));
+    }
+
     pub fn add(&mut self, key: &str, n: u64) {
         let cur = self.coverage.get(key).and_then(|v| v.as_u64()).unwrap_or(0);
         self.coverage.insert(key.to_string(), json!(cur + n));
